@@ -8,14 +8,20 @@ CFG = {
             "generated streams (three chunkings), Close() issued while blocked in a read at every chunk boundary, four consumers "
             "(Finish at once / retain everything / Finish 1..5 items late) with deep copies compared to the retained originals, "
             "Escape-timer scripts with 40 ms pauses after a lone ESC and back-to-back reads otherwise; distinct by (consumer, script)",
-    "trusted_base": ["atomicity of the steps that run under Parser.mu; FIFO order of emit; time.AfterFunc/Stop and sync.Pool semantics as stated in notes/C08.md",
-                     "pool ownership model (Own) follows escapeDispatch/csiDispatch/hook/Finish by reading, validated by the retention harness"],
+    "trusted_base": ["Model/ParserRunFine.lean lists the statements of run/readRune/the timer callback in source order (by reading; shape flags regenerated); "
+                     "sync.Mutex gives sequential consistency for the fields it guards; FIFO order of emit; time.AfterFunc/Stop and sync.Pool semantics as stated in notes/C08.md",
+                     "pool models (explicit arrays in Model/ParserPools.lean, refining to Own) follow escapeDispatch/csiDispatch/hook/Finish/clear/collect by reading, validated by the retention harness"],
     "assumptions": ["the consumer keeps receiving (emit blocks otherwise, by design)", "each delivered sequence is passed to Finish at most once",
                     "40 ms >> 10 ms >> back-to-back reads on the test machine (prompt cases with surplus Escape reports are re-run)"],
     "level_text": "Proved for every schedule of reads, end of input, Close(), timer firings and late timer callbacks: exactly one EOF, last, then the channel is closed, "
                   "nothing emitted afterwards; no panic; end of input / Close+read return stop the loop; no deadlock; number of Escape reports = number of (up-to-date) "
-                  "timer firings; lone ESC => one C0 1B then ground; prompt ESC => none; a late callback is the Escape key or a no-op; pool ownership: the parser never "
-                  "writes to an array of a delivered, unfinished sequence. Real time is abstracted to the order of timer and read events.",
+                  "timer firings; lone ESC => one C0 1B then ground; prompt ESC => none; a late callback is the Escape key or a no-op. "
+                  "Atomicity of the mutex-protected steps is proved, not assumed: the statement-grained system (explicit mutex and escGen, Stop/Lock/escGen++/anywhere/Unlock and the "
+                  "callback's Lock/check/emit/state/ignoreST/Unlock as separate steps, any number of callbacks in flight) refines the atomic one for every interleaving "
+                  "(forward simulation), with mutual exclusion, EOF once and last, no send on the closed channel, no panic, Escape report only for a lone ESC, mutex never held for ever. "
+                  "Pools over explicit backing arrays (aliasing visible, Get returning stale lengths, params and parameter lists included): the cells [0,len) of every delivered, "
+                  "unfinished sequence are unchanged since delivery; fails without the Get at dispatch or with a double Finish (witnesses). "
+                  "Real time is abstracted to the order of timer and read events.",
     "level_note": "LTS tied to the code by the regenerated table/timer shape and by scripted-reader correspondence (incl. hook-forced callback delays in a child process). "
                   "Fixed in /repo: F108 (ignoreST after Escape key inside a string), F29 (unguarded timer callback: late Escape, torn sequence, send on closed channel).",
     "timeout": 1800,
